@@ -296,7 +296,8 @@ def run(index, rep, tier):
             return True
         puts = [n for n in cfg.nodes if is_put(n)]
         rep.floor("R06.5", "results_queue.put sites in worker.run", 1, len(puts))
-        w = cfg.can_reach(cfg.entry, lambda n: n is cfg.exit, avoid=is_put, follow_exc=False, edge_ok=not_kill_edge)
+        # handled exceptions are ordinary control flow here: the loop is left through `except queue.Empty: break`
+        w = cfg.can_reach(cfg.entry, lambda n: n is cfg.exit, avoid=is_put, follow_exc=True, edge_ok=not_kill_edge)
         rep.check(w is None, "R06.5", run_fi.qualname, "exit without results_queue.put", fn_where(run_fi),
                   "worker.run: every non-killed path to the normal exit passes results_queue.put",
                   "TreeAnalysisWorker.run can finish (kill_received false) without putting a result: the collation loop waits for num_processes results forever")
